@@ -71,6 +71,7 @@ func (q *queryExecutor) speculate(ctx context.Context, qry ExecutableQuery, sp S
 		select {
 		case <-ticker.C:
 			qry.borrowForExecution() // ensure liveness in case of executing Query to prevent races with Query.Release().
+			verifPoint("spec.launch")
 			go q.run(ctx, qry, hostIter, results)
 		case <-ctx.Done():
 			return &Iter{err: ctx.Err()}
